@@ -6,6 +6,10 @@ type MemOp struct {
 	Bytes  int    // bytes per element moved
 	Signed bool   // sign-extend sub-dword loads
 	Mul    int    // read2/write2: offset unit in bytes (element size, x64 for st64 forms)
+	// deviations (only used by deviation models)
+	NoAlign      bool // SMEM: the two low address bits are not ignored
+	IgnoreOffset bool // DS: the instruction offset is not added
+	SaddrS0      bool // FLAT: a zero SADDR field is taken as the scalar base s[0:1], the address VGPR as a 32-bit offset
 }
 
 func memEntry(name, fmtName string, class Class, p, page string, m MemOp) *Entry {
